@@ -407,6 +407,7 @@ namespace vh {
         sim_set_fail_handler(on_sim_fail);
         if (ctx.have_script) sim_set_script(ctx.script.data(), ctx.script.size());
         g_log.reserve(1 << 14);
+        sim_set_budget_scale((uint64_t) ctx.params.set("sim.budget_scale", 1));
         sim_begin(&cfg);
     }
 
